@@ -340,6 +340,9 @@ func (pk *PublicKey) UnmarshalCBOR(data []byte) error {
 	if err != nil {
 		return errs.Wrap(err).WithMessage("could not unmarshal public key from CBOR")
 	}
+	if dto == nil {
+		return errs.Wrap(serde.ErrNull).WithMessage("could not unmarshal public key from CBOR")
+	}
 	newPk, err := NewPublicKey(dto.Group)
 	if err != nil {
 		return errs.Wrap(err).WithMessage("could not create public key from unmarshaled data")
